@@ -169,3 +169,158 @@ pub fn probe(args: &[String]) -> i32 {
     let _ = h.map(|h| h.join());
     0
 }
+
+/// One call as the first call of this process; prints the full outcome image.
+pub fn fresh(args: &[String]) -> i32 {
+    let ev = match args.first().and_then(|s| Ev::parse(s)) {
+        Some(e) => e,
+        None => return 2,
+    };
+    let expr = args.get(1).cloned().unwrap_or_default();
+    let ph = args.get(2).and_then(|s| Val::dec(s)).unwrap_or(Val::zero(ev));
+    let h = std::thread::Builder::new().stack_size(8 * 1024 * 1024 + 256 * 1024).spawn(move || {
+        let len = expr.chars().count();
+        let o = sut::call_with(ev, &expr, &ph, sut::c02_budget(len), 0).outcome;
+        println!("{}", o.enc());
+    });
+    match h.map(|h| h.join()) {
+        Ok(Ok(())) => 0,
+        _ => 1,
+    }
+}
+
+/// Write a corpus of hostile calls (JSON lines) for the sanitizer stages: gen-corpus <n> <path> [seed]
+pub fn gen_corpus(args: &[String]) -> i32 {
+    use crate::gen::*;
+    use crate::prng::Rng;
+    let n: usize = args.first().and_then(|s| s.parse().ok()).unwrap_or(100);
+    let path = match args.get(1) {
+        Some(p) => p.clone(),
+        None => return 2,
+    };
+    let seed: u64 = args.get(2).and_then(|s| s.parse().ok()).unwrap_or(1);
+    let mut rng = Rng::derive(seed, "corpus", n as u64);
+    let mut out = String::new();
+    let mut k = 0;
+    while k < n {
+        for ev in crate::val::ALL_EV {
+            let pool = ph_pool(ev);
+            let leaf = hostile_leaf(ev);
+            let cfg = GenCfg::full(ev, &leaf);
+            let d = 1 + rng.below(4);
+            let (_, s) = gen_expr(&cfg, &mut rng, d);
+            let s = match rng.below(4) {
+                0 => mutate(&s, &mut rng, ev),
+                1 => {
+                    let b = bombs(ev);
+                    let pick = b[rng.below(b.len())].clone();
+                    // keep interpreted runs short: skip the 256-char nestings most of the time
+                    if pick.chars().count() > 80 && rng.chance(3, 4) {
+                        s
+                    } else {
+                        pick
+                    }
+                }
+                _ => s,
+            };
+            let c = crate::core::Case::new(ev, "corpus", &s, *rng.pick(&pool));
+            out.push_str(&c.to_json().to_string());
+            out.push('\n');
+            k += 1;
+        }
+    }
+    match std::fs::write(&path, out) {
+        Ok(()) => 0,
+        Err(_) => 2,
+    }
+}
+
+fn esc_tsv(s: &str) -> String {
+    let mut o = String::new();
+    for c in s.chars() {
+        match c {
+            '\\' => o.push_str("\\\\"),
+            '\t' => o.push_str("\\t"),
+            '\n' => o.push_str("\\n"),
+            '\r' => o.push_str("\\r"),
+            c if (c as u32) < 0x20 || c == '\u{85}' || c == '\u{2028}' || c == '\u{2029}' => o.push_str(&format!("\\u{:06x}", c as u32)),
+            c => o.push(c),
+        }
+    }
+    o
+}
+
+/// Corpus for C17: every token and function of each evaluator at least once, the precedence
+/// skeletons (they exercise the cfg-gated OperatorCategory order), hostile inputs and random trees.
+pub fn gen_c17_corpus(args: &[String]) -> i32 {
+    use crate::gen::*;
+    use crate::prng::Rng;
+    use crate::syntax::*;
+    let n: usize = args.first().and_then(|s| s.parse().ok()).unwrap_or(1000);
+    let path = match args.get(1) {
+        Some(p) => p.clone(),
+        None => return 2,
+    };
+    let seed: u64 = args.get(2).and_then(|s| s.parse().ok()).unwrap_or(1);
+    let mut rng = Rng::derive(seed, "c17", n as u64);
+    let mut lines: Vec<String> = vec![];
+    let push = |ev: Ev, expr: &str, ph: Val, lines: &mut Vec<String>| {
+        let id = lines.len();
+        let case = crate::core::Case::new(ev, "c17", expr, ph);
+        lines.push(format!("{}\t{}\t{}\t{}\t{}", id, case.to_json().to_string(), ev.name(), ph.enc(), esc_tsv(expr)));
+    };
+    for ev in crate::val::ALL_EV {
+        let pool = ph_pool(ev);
+        // fixed part: vocabulary and precedence skeletons
+        for (sp, f) in spellings_for(ev) {
+            let e = match f.arity() {
+                Arity::One => format!("{}(2)", sp),
+                Arity::Two => format!("{}(2,3)", sp),
+                Arity::Var => format!("{}(3,1,2)", sp),
+            };
+            push(ev, &e, pool[0], &mut lines);
+            push(ev, &format!("1+{}*2", e), pool[1], &mut lines);
+        }
+        let mut sk: Vec<&str> = vec!["1+2*3", "2*3+1", "-2^2", "2^3^2", "2^-3", "6/2(3)", "2^3(4)", "-2(3)", "(1+2)*3", "2*(3+4)^2", "1-2-3", "8/4/2", "2+3*4^2", "-3+4", "+5", "2²+1", "2*3²", "@", "@+1", "@*@", "2(3)(4)", "1)", "2+", "(", "", "1 2", "1,2"];
+        if has_fact_mod(ev) {
+            sk.extend(["-3!", "2^3!", "3!!", "7%4*2", "2*7%4", "-2(3)!", "3!(2)", "5%3+1"]);
+        }
+        if has_bitops(ev) {
+            sk.extend(["1|2&3", "1<<2+1", "8>>1<<2", "6&3|8", "1+2<<3", "2*3&5", "1|2^2", "-1>>1", "7&3<<1", "1<<2*3|1"]);
+        }
+        if has_degrad(ev) {
+            sk.extend(["180°", "3rad", "2*90°", "1+90°", "90°*2"]);
+        }
+        if has_consts(ev) {
+            sk.extend(["pi", "π*2", "e^2", "2*e", "pi+e"]);
+        }
+        if has_floorceil_brackets(ev) {
+            sk.extend(["⌊2.5⌋", "⌈2.5⌉", "2⌊2.5⌋", "⌊2.5⌋⌈1.5⌉", "⌊-2.5⌋*2"]);
+        }
+        if ev == Ev::Cpx {
+            sk.extend(["i", "2i", "i*i", "(1+2i)*(3-4i)", "2i(3)", "1/i"]);
+        }
+        for s in sk {
+            push(ev, s, pool[2 % pool.len()], &mut lines);
+        }
+        for b in bombs(ev).into_iter().step_by(97) {
+            push(ev, &b, pool[3 % pool.len()], &mut lines);
+        }
+    }
+    // random part
+    while lines.len() < n {
+        for ev in crate::val::ALL_EV {
+            let pool = ph_pool(ev);
+            let leaf = hostile_leaf(ev);
+            let cfg = GenCfg::full(ev, &leaf);
+            let d = 1 + rng.below(5);
+            let (_, s) = gen_expr(&cfg, &mut rng, d);
+            let s = if rng.chance(1, 4) { mutate(&s, &mut rng, ev) } else { s };
+            push(ev, &s, *rng.pick(&pool), &mut lines);
+        }
+    }
+    match std::fs::write(&path, lines.join("\n") + "\n") {
+        Ok(()) => 0,
+        Err(_) => 2,
+    }
+}
